@@ -1016,6 +1016,18 @@ PROP = Prop(
           "builder's default-group path; merged with a situation that declares households: the left-out-person path), with role-dependent "
           "variables (nb_persons(first role), role-filtered sum of ones) requested. The order-dependent operations (value_nth_person, first_person, get_rank) "
           "are not in the language: the permutation clause is false of them by definition. "
+          "Document spellings (builder stream): every situation writes its period keys in its own spelling ('2018-01', 'month:2018-01', "
+          "'month:2018-01:1', ETERNITY/eternity: same slot); ids plain / shuffled / Python ints / the same names for persons and households; "
+          "30%: a default period is set and values of that period are written bare; parts are built through build_from_dict, with the "
+          "single-household ('household': ...), single-person ('person': ...) and variables-only spellings when the part allows them; 30% of "
+          "the inputs on variables WITHOUT formula are absent (or null) in one situation: its entities read the default alone and together. "
+          "Direct stream: by hand, by hand with members_role left to its default, or declare_person_entity / declare_entity / "
+          "join_with_persons (populations where every household has a member) with roles as keys or as indices. Requests: a third of the "
+          "periods are passed as text, 5% of the cases ask for a variable that does not exist, 20% run every simulation with trace=True, "
+          "up to 3 calculate_divide requests per case (year variable for a month, month variable for a day, day for a day, a refused one), "
+          "answered after the other requests and compared by the oracle only (identity of the quotients); calculate_add: 15% of the requests "
+          "plus the ADD option inside formulas. Role digits: a flattened role, 9 = no filter, 8 = the first role with its sub-roles; "
+          "projection with a role filter (household.project(x, role)). "
           "Non-trivial = the merged simulation and at least two parts returned values; distinct = distinct protocol lines."),
     assumptions=[
         "formulas are those of the expression DSL (arbitrary Python formulas are outside the model); the DSL has no n-th-member / "
@@ -1028,6 +1040,11 @@ PROP = Prop(
         "a person listed in no household gets a household of its own appended by the builder (in set-iteration order: the harness matches "
         "them by id); such a household cannot carry inputs, so in those documents household-level inputs go to variables without formula",
         "roles respect their maxima (one head, two parents per household); value_from_person is used with the unique role only",
+        "a document is one dict: two situations cannot bring the same person or household id (the second would overwrite the first before "
+        "the builder sees it); axes belong to the document, not to a situation (they replicate the whole merged population): C12's subject",
+        "join_with_persons is exercised on populations in which every declared household has a member (with a member-less household it "
+        "attaches persons to the wrong household at HEAD: reported, not recorded)",
+        "max_spiral_loops, trace and the request sequence are identical on the merged and the separate simulations; storage configuration is C17's",
         "values are small integers, exactly representable in float32/int32 (numeric policy, DESIGN section 4); larger results are not compared",
         "numpy primitives used by the group operations (bincount, fancy indexing) are modelled",
         "the machine-level theorems (what Simulation.calculate returns) are for variable-ranked rule systems (C01); the meaning-level "
